@@ -247,7 +247,7 @@ fn write_into(slot: &mut Val, proj: &[PElem], v: Val, weak: bool) {
         (Val::Arr(a), PElem::Index(k)) => {
             if *k >= 0 && (*k as u64) < a.len {
                 let a = Rc::make_mut(a);
-                a.tag = None;
+                a.touch(*k as u64, *k as u64);
                 let mut cur = a.get(*k as u64).clone();
                 write_into(&mut cur, &proj[1..], v, weak);
                 a.set(*k as u64, cur);
@@ -255,9 +255,9 @@ fn write_into(slot: &mut Val, proj: &[PElem], v: Val, weak: bool) {
         }
         (Val::Arr(a), PElem::IndexRange(lo, hi)) => {
             let a = Rc::make_mut(a);
-            a.tag = None;
             let lo = (*lo).max(0) as u64;
             let hi = ((*hi).max(0) as u64).min(a.len.saturating_sub(1));
+            a.touch(lo, hi);
             if proj.len() == 1 {
                 a.weak_set(lo, hi, &v);
             } else if lo <= hi && hi - lo < 4096 {
